@@ -362,6 +362,7 @@ pub fn run(tier: Tier, shard: Shard, rep: &mut Report) {
          every capacity): exactly n - capacity evictions, nothing twice, classical for some reported flags; \
          ten inputs of 1500 and 4000 64-byte entries planned in a forked child whose allocator refuses every request above 24 n bytes \
          (a returned plan is still the classical one; an abort is not a plan); \
+         entries whose rank is live (n <= 3, thorough 4: distinct first-look ranks in every order, each entry keeping its rank or moving to any tie-free other one, every flag vector, every capacity): classical for some ranks the entries reported; \
          zero-sized entries (all idle, all busy) and one-byte entries with distinct ranks, n <= 6 resp. 5, every flag vector, every capacity 0..=n+1 \
          (the plan does not depend on the size of an entry, and nothing panics); \
          plus enumerated large families (thorough). Non-trivial = n > capacity \
@@ -493,6 +494,7 @@ pub fn run(tier: Tier, shard: Shard, rep: &mut Report) {
     live_bits_section(tier, shard, rep);
     refused_allocation_section(shard, rep);
     entry_shapes_section(shard, rep);
+    live_rank_section(tier, shard, rep);
 }
 
 /// Entries that occupy no memory at all (interchangeable permits): rank and flag are properties of the type.
@@ -715,6 +717,127 @@ fn live_bits_section(tier: Tier, shard: Shard, rep: &mut Report) {
     }
 }
 
+/// An entry whose rank is live (a writer re-stamps the file while the planner runs): the first look answers `first`,
+/// every later look `later`.
+struct LiveRank {
+    id: u32,
+    first: u64,
+    later: u64,
+    accessed: bool,
+    looks: std::cell::Cell<u32>,
+}
+
+impl Entry for LiveRank {
+    type Rank = u64;
+    fn rank(&self) -> u64 {
+        let n = self.looks.get();
+        self.looks.set(n + 1);
+        if n == 0 {
+            self.first
+        } else {
+            self.later
+        }
+    }
+    fn accessed(&self) -> bool {
+        self.accessed
+    }
+}
+
+/// Ranks that change between two looks.  First-look ranks are distinct even numbers; an entry either keeps its rank
+/// or moves to an odd one (distinct per entry, so there is never a tie).  The plan must be the classical result for
+/// ranks each of which is one of the answers that entry gave - a plan built from a mixture of moments that matches
+/// no assignment places an entry where no look at the directory ever saw it.
+fn live_rank_section(tier: Tier, shard: Shard, rep: &mut Report) {
+    let max_n = if tier == Tier::Quick { 3usize } else { 4 };
+    let mut no = 0u64;
+    for n in 1..=max_n {
+        // permutations of 0..n as first-look order
+        let mut perms: Vec<Vec<u64>> = Vec::new();
+        fn permute(cur: &mut Vec<u64>, used: &mut Vec<bool>, n: usize, out: &mut Vec<Vec<u64>>) {
+            if cur.len() == n {
+                out.push(cur.clone());
+                return;
+            }
+            for i in 0..n {
+                if !used[i] {
+                    used[i] = true;
+                    cur.push(i as u64);
+                    permute(cur, used, n, out);
+                    cur.pop();
+                    used[i] = false;
+                }
+            }
+        }
+        permute(&mut Vec::new(), &mut vec![false; n], n, &mut perms);
+        // per entry: 0 = rank unchanged, j >= 1 = moves to the odd rank 2j-1 (between the even ones, or past them all)
+        let moves = n as u64 + 2;
+        for perm in &perms {
+            for mcode in 0..moves.pow(n as u32) {
+                for flags in 0..(1u32 << n) {
+                    for capacity in 0..=n {
+                        no += 1;
+                        if !shard.mine(no) {
+                            continue;
+                        }
+                        let mut c = mcode;
+                        let mut later: Vec<u64> = Vec::new();
+                        let mut clash = false;
+                        for i in 0..n {
+                            let m = c % moves;
+                            c /= moves;
+                            let l = if m == 0 { 2 * perm[i] } else { 2 * m - 1 };
+                            if m != 0 && later.contains(&l) {
+                                clash = true;
+                            }
+                            later.push(l);
+                        }
+                        if clash {
+                            continue; // two entries on the same odd rank: a tie, not enumerated here
+                        }
+                        let entries: Vec<LiveRank> = (0..n).map(|i| LiveRank { id: i as u32, first: 2 * perm[i], later: later[i], accessed: (flags >> i) & 1 == 1, looks: std::cell::Cell::new(0) }).collect();
+                        rep.evaluations += 1;
+                        rep.states += 1;
+                        rep.transitions += 1;
+                        rep.traces += 1;
+                        rep.count("live_rank_cases", 1);
+                        let case = json!({"live_ranks": true});
+                        let plan = match std::panic::catch_unwind(std::panic::AssertUnwindSafe(|| Update::new(entries, capacity))) {
+                            Ok(p) => p,
+                            Err(_) => {
+                                rep.violation("planner:panic", format!("n={} capacity={} with ranks changing between looks (first {:?}, later {:?}): planner panicked", n, capacity, perm, later), case);
+                                continue;
+                            }
+                        };
+                        let evict: Vec<u32> = plan.to_evict.iter().map(|e| e.id).collect();
+                        let moved: Vec<u32> = plan.to_move_back.iter().map(|e| e.id).collect();
+                        // some assignment "entry i had rank first[i] or later[i]" explains the plan
+                        let mut explained = false;
+                        for pick in 0..(1u32 << n) {
+                            let mut order: Vec<(u64, u32, bool)> = (0..n).map(|i| (if (pick >> i) & 1 == 1 { later[i] } else { 2 * perm[i] }, i as u32, (flags >> i) & 1 == 1)).collect();
+                            order.sort();
+                            if order.windows(2).any(|w| w[0].0 == w[1].0) {
+                                continue;
+                            }
+                            let q: Vec<(u32, bool)> = order.iter().map(|e| (e.1, e.2)).collect();
+                            if classical(&q, capacity) == (evict.clone(), moved.clone()) {
+                                explained = true;
+                                break;
+                            }
+                        }
+                        if !explained {
+                            rep.violation(
+                                "planner:live-ranks",
+                                format!("n={} capacity={} first-look ranks {:?}, later ranks {:?}, flags {:#b}: plan (evict {:?}, move back {:?}) is not the classical result for any ranks the entries reported", n, capacity, perm.iter().map(|r| 2 * r).collect::<Vec<_>>(), later, flags, evict, moved),
+                                case,
+                            );
+                        }
+                    }
+                }
+            }
+        }
+    }
+}
+
 /// A 64-byte entry: whatever the planner reserves per entry is then clearly larger than what sorting needs per entry.
 struct Big {
     id: u32,
@@ -786,6 +909,10 @@ fn refused_allocation_section(shard: Shard, rep: &mut Report) {
 pub fn replay(case: &Value, rep: &mut Report) {
     if case.get("refused_allocation").is_some() {
         refused_allocation_section(Shard { index: 0, count: 1 }, rep);
+        return;
+    }
+    if case.get("live_ranks").is_some() {
+        live_rank_section(Tier::Thorough, Shard { index: 0, count: 1 }, rep);
         return;
     }
     if case.get("entry_shapes").is_some() {
